@@ -20,6 +20,7 @@ const jailUID = 4242
 type ext struct {
 	UploadA1, UploadA2, UploadB, UploadC string // a (two uploads on one key), b, d/c
 	KeyA, KeyB, KeyC                     string
+	MoreUploadKeys                       []string
 	MPObj                                string // object assembled from a multipart upload
 	Susp                                 string // bucket with versioning Suspended
 	SuspKey                              string
@@ -58,6 +59,7 @@ func seedWorld() (*world, error) {
 	}
 	e := &x.ext
 	e.KeyA, e.KeyB, e.KeyC = "cnry-mpu-a.bin", "cnry-mpu-b.bin", "d/cnry-mpu-c.bin"
+	e.MoreUploadKeys = []string{"cnry-mpu-e.bin", "cnry-mpu-f.bin", "cnry-mpu-g.bin", "d/cnry-mpu-h.bin", "cnry-mpu-i.bin", "cnry-mpu-j.bin"}
 	mpu := func(key string, parts int) string {
 		id, r := cl.CreateMPU(st.Plain, key)
 		ok("create mpu "+key, r)
@@ -70,6 +72,9 @@ func seedWorld() (*world, error) {
 	e.UploadA2 = mpu(e.KeyA, 1)
 	e.UploadB = mpu(e.KeyB, 2)
 	e.UploadC = mpu(e.KeyC, 0)
+	for _, k := range e.MoreUploadKeys {
+		mpu(k, 1)
+	}
 	// an object assembled from one part
 	e.MPObj = "cnry-mpobj.bin"
 	id, r := cl.CreateMPU(st.Plain, e.MPObj)
